@@ -8,3 +8,61 @@ package wal
 //@   trusted
 //@   tag ghost-pure
 //@   modifies nothing
+
+// The sentinel errors the record reader distinguishes are distinct values.
+//@ axiom sentinels-distinct: io.EOF != utils.ErrPartialRecord && io.EOF != kv.ErrBadChecksum && utils.ErrPartialRecord != kv.ErrBadChecksum && io.EOF != utils.ErrEmptyRecord && utils.ErrPartialRecord != utils.ErrEmptyRecord && kv.ErrBadChecksum != utils.ErrEmptyRecord
+
+// C13/C14 DecodeRecord: avail(r) is the number of bytes left on the stream.
+//  - io.EOF is reported only at a record boundary (nothing left), so a torn header is
+//    not mistaken for a clean end (C13);
+//  - a record cut anywhere (header, body or checksum) is ErrPartialRecord and the rest of
+//    the stream has been consumed (C13);
+//  - success consumes exactly the record (4 + length + 4 bytes) (C13) and implies that
+//    the stored checksum equals the CRC of exactly the type byte and payload that are
+//    returned (C14: corrupted bytes are never handed out as a valid record).
+//@ func DecodeRecord
+//@   property C13 C14
+//@   alloc ghost:avail(r)
+//@   ensures [eof-only-at-record-boundary] result3 == io.EOF ==> old(avail(r)) == 0
+//@   ensures [nothing-left-is-an-error] old(avail(r)) == 0 ==> result3 != nil
+//@   ensures [success-consumes-one-record] result3 == nil ==> old(avail(r)) >= uint64(result2) + 8 && avail(r) == old(avail(r)) - uint64(result2) - 8 && result2 >= 1 && len(result1) == int(result2) - 1
+//@   exit [checksum-gate] result3 == nil ==> crc32c(buf) == expected && len(buf) == int(result2)
+//@   exit [returns-checksummed-bytes] result3 == nil ==> uint8(result) == buf[0] && (forall i int :: 0 <= i && i < len(result1) ==> result1[i] == buf[i+1])
+//@   modifies avail(r), ghost(kv.hashed), ghost(kv.hashWrites)
+
+//@ func NewRecordIterator
+//@   property C13
+//@   requires [no-typed-nil-reader] r != nil ==> dynptr(r) != nil
+//@   ensures [reads-the-whole-stream] r != nil ==> result != nil && result.err == nil && result.reader != nil && avail(result.reader) == old(avail(r))
+//@   ensures [nil-reader-is-ended] r == nil ==> result != nil && result.err != nil
+//@   tag ghost-pure
+//@   modifies nothing
+
+// One step of the record stream: a successful Next consumes exactly one whole record;
+// it stops with io.EOF only at a record boundary and with ErrPartialRecord when (and
+// only when) the stream ends inside a record.
+//@ func (*RecordIterator).Next
+//@   property C13
+//@   requires [reader-present] rs != nil && rs.err == nil ==> rs.reader != nil
+//@   ensures [advance-one-record] result ==> rs != nil && rs.err == nil && rs.length >= 1 && old(avail(rs.reader)) >= uint64(rs.length) + 8 && avail(rs.reader) == old(avail(rs.reader)) - uint64(rs.length) - 8
+//@   ensures [stop-keeps-an-error] !result && rs != nil ==> rs.err != nil
+//@   ensures [eof-only-at-record-boundary] !result && rs != nil && old(rs.err) == nil && rs.err == io.EOF ==> old(avail(rs.reader)) == 0
+//@   ensures [reader-kept] rs != nil ==> rs.reader == old(rs.reader)
+//@   modifies rs.err, rs.recType, rs.buffer, rs.length, avail(rs.reader), ghost(kv.hashed), ghost(kv.hashWrites)
+
+//@ func (*RecordIterator).Length
+//@   inline
+//@ func (*RecordIterator).Err
+//@   inline
+//@ func (*RecordIterator).Close
+//@   inline
+
+// C13 verifySegment: after a nil return the segment file ends exactly at the end of its
+// last complete record - either nothing was left over (offset equals the size the file
+// was opened with) or the file was truncated at offset; offset counts exactly the bytes
+// of the whole records read (loop invariant). Holds for every file length and content,
+// i.e. for a cut at any byte.
+//@ func verifySegment
+//@   property C13
+//@   ensures [segment-ends-at-record-boundary] result == nil && f != nil ==> (vfs.truncCalls == old(vfs.truncCalls) + 1 && vfs.truncAt == offset && uint64(offset) <= vfs.openedSize) || (vfs.truncCalls == old(vfs.truncCalls) && uint64(offset) == vfs.openedSize)
+//@   loop 1 invariant [offset-counts-consumed] reIter != nil && reIter.reader != nil && offset >= 0 && uint64(offset) <= vfs.openedSize && uint64(offset) + avail(reIter.reader) == vfs.openedSize && vfs.openedSize <= 1 << 62 && vfs.truncCalls == old(vfs.truncCalls) && reIter.err == nil
